@@ -9,7 +9,7 @@ from ..astutil import (call_name, calls_in, walk_no_nested, params_of, kw,
                        is_const)
 from ..cfg import (cfg_of, loop_body_paths, expr_owner_node, enumerate_paths,
                    fact_key)
-from ..loader import Program, AnalysisError, unparse
+from ..loader import Program, AnalysisError, unparse, enclosing_stmt
 from ..pathutil import describe_path, node_calls, path_method_calls
 from ..report import Check
 from . import options_table
@@ -561,6 +561,30 @@ def rule_r4(chk, prog):
         guards = [i for i in ast.walk(loop) if isinstance(i, ast.If)
                   and any(isinstance(y, ast.YieldFrom)
                           for b in i.body for y in ast.walk(b))]
+        if len(guards) == 1 and len(ys) == 1:
+            # must-pass-through: every complete iteration on which the guard
+            # admits the node (and the abort flag is clear) delegates the
+            # node to __mutate_node - no second condition drops a node
+            gtxt = unparse(guards[0].test)
+            ystmt = enclosing_stmt(ys[0])
+            nadm = 0
+            for p in loop_body_paths(gcfg, loop):
+                if any(t.endswith('.is_set()') and pol for (t, pol) in p.facts):
+                    continue
+                if (gtxt, True) not in p.facts or p.end is not ghead:
+                    continue
+                nadm += 1
+                reached = any(n.kind == 'stmt' and n.ast is ystmt
+                              for n in p.nodes[:-1])
+                chk.check('C02.R4', gw,
+                          f'{describe_path(p)}: admitted node delegated',
+                          reached, 'a node the skip guard admits is passed '
+                          'over without being handed to __mutate_node: its '
+                          'simplifications are never proposed, in no sweep, '
+                          'so the result need not be a fixed point',
+                          loc=m.loc(loop), nontrivial=True)
+            chk.floor('C02.R4', 'iterations admitted by the skip guard',
+                      nadm, 1)
         ok3 = len(guards) == 1 and first is not None
         msg = 'the delegation to __mutate_node is not under one guard'
         if ok3:
